@@ -39,8 +39,13 @@ class StreamExec(Exec):
         kind, k = cfg['ev']
         n = cfg['n']
 
+        gaps = cfg.get('gaps')
+
         def gen():
+            import time
             for i in range(n):
+                if gaps and gaps[i]:
+                    time.sleep(gaps[i])     # a slow, bursty source (virtual time)
                 if kind == 'src_raise' and i == k:
                     raise Boom('src', i)
                 if kind == 'src_stop' and i == k:
@@ -191,6 +196,10 @@ class BufferH(Harness):
                 evs.append(['src_stop', k])
             for ev in evs:
                 out.append(dict(pipe='buffer', m=m, n=n, ev=ev, bound=d, cap=60000 if tier == 'quick' else 400000))
+        # slow / bursty sources: the consumer sits idle on an empty buffer while the source pauses (timer deviations on)
+        for m, gaps in ((1, [0, 0.1]), (2, [0.1, 0, 0.1]), (2, [0, 0.2, 0.05])):
+            out.append(dict(pipe='buffer', m=m, n=len(gaps), ev=['none', 0], gaps=gaps, bound=1 if tier == 'quick' else 2,
+                            cap=60000 if tier == 'quick' else 400000, sched_opts=dict(timers='all', timer_window=50)))
         return out
 
     def new(self, cfg):
